@@ -425,6 +425,9 @@ fn judge_animator_frame_t(tl: Option<&TlInForce>, enabled: bool, delta: Duration
                 st0, st1, pos0, comp1, v, comp0
             ));
         }
+        // ... and what the library's evaluation returns there is what the timeline should give
+        // (independent f64 model; the time is known to within the f32 conversion of the position)
+        tl.model_check(comp0, comp1, s0, 2.0 * ulp32(s0 as f32) as f64).map_err(|e| format!("state {:?} -> {:?} with position {:?} at the start of the frame: {e} (component {:?} -> {:?})", st0, st1, pos0, comp0, comp1))?;
     } else if !comp1.same(comp0) {
         if !eval_matches(comp1) {
             return Err(format!("state {:?} -> {:?}: component changed to {:?}, which is neither its previous value {:?} nor the timeline at the frame's start position {:?}", st0, st1, comp1, comp0, pos0));
